@@ -3,7 +3,8 @@ import worldlib as W
 from check_world import run_world
 
 OBLIGATIONS = ['Cvise.C04.only_test_cases_touched', 'Cvise.C04.original_survives', 'Cvise.C04.frame_for_every_run', 'Cvise.C04.backup_preserves', 'Cvise.C04.backup_creates', 'Cvise.C04.modes_back_when_pass_completes',
-               'Cvise.C04.modes_lost_without_restore', 'Cvise.C04.shipped_backup_guard']
+               'Cvise.C04.modes_lost_without_restore', 'Cvise.C04.shipped_backup_guard',
+               'Cvise.C04.to_utf8_keeps_original', 'Cvise.C04.shipped_to_utf8_backup_first', 'Cvise.C04.old_to_utf8_loses_original']
 
 
 def probe(ctx, diffs=None):
